@@ -1193,8 +1193,10 @@ def make_post_replay(q_sym: Any, p_sym: Any) -> Callable[[World, dict[str, Any],
     return post
 
 
-def replay_run(workload: str, choices: list[Any], q_sym: Any, p_sym: Any, inject_at: Any = None, inject: Callable[[World], None] | None = None) -> bool:
-    return schedule_run("C12", workload, choices, compare="none", events=True, post=make_post_replay(q_sym, p_sym), inject_at=inject_at, inject=inject)
+def replay_run(workload: str, choices: list[Any], q_sym: Any, p_sym: Any, inject_at: Any = None, inject: Callable[[World], None] | None = None,
+               window_after_inject: bool = False) -> bool:
+    return schedule_run("C12", workload, choices, compare="none", events=True, post=make_post_replay(q_sym, p_sym), inject_at=inject_at, inject=inject,
+                        window_after_inject=window_after_inject)
 
 
 # ----------------------------------------------------------------------------------------------- C13 events + state
